@@ -83,7 +83,7 @@ PROPS = {
                      "numbers, extension, path_sep, environment variable part, date part with a forward-moving clock = one series of "
                      "generations per date, directory pre-existing or created by the policy), policy used directly or through the "
                      "files::Handler<P> wrapper, up to 24 (quick) / 40 (thorough) operations write(len 1..24, 1 run in 8 with entries of "
-                     "1000..2600 bytes) / clean restart / clock step, each optionally carrying one fault: process crash at the n-th "
+                     "1000..2600 bytes, in a third of the fault-free runs also entries without visible text) / clean restart / clock step, each optionally carrying one fault: process crash at the n-th "
                      "file-system call (incl. a torn write), short write, EINTR, an open that fails once; 30% of runs fault-free, 30% "
                      "crash-only. After every operation the simulated disk is compared with the reference model (step relation, limits, "
                      "content/order/holes); after the last operation a fresh process must re-open and roll twice. Non-trivial: at least "
@@ -93,6 +93,8 @@ PROPS = {
                      "them, under the seeded thread scheduler (preemption at every non-stack load/store of the library) with the same "
                      "simulated file system; oracle: every line is one issued message, none twice, file order is a linearisation of the "
                      "calls, loss only of provably-not-newer messages once max_gen files exist, limits, no premature generation, no data "
+                     "race (ThreadSanitizer), no deadlock; a third of these runs kill the process at the n-th write call of one round "
+                     "(calls that returned before are durable, the next round is the new process); no data "
                      "race (ThreadSanitizer), no deadlock. Non-trivial there: at least one preemption or wait for the handler's lock; "
                      "distinct: context-switch sequence + file-system call sequence."),
             "sim_time_unit": "simulated seconds (clock operations of the plans; the clock is read by the file-name builder only); scheduler steps of the threaded part are in misc.mt_schedule_points",
@@ -165,7 +167,9 @@ PROPS = {
                      "recipe menu incl. positional argument and sub-group, optional argument-file argument and explicitly named "
                      "environment variable; program name of length 0..300 (empty, '/', only slashes, trailing slash, random bytes); up "
                      "to 16 (quick) / 24 (thorough) words from three generators (random bytes 1..255, words made of - = ( ) ! only, "
-                     "grammar-aware mutations of a rule-obeying line); program-name file / argument file present, absent, a directory, "
+                     "grammar-aware mutations of a rule-obeying line; string values of 1..12 characters or text blocks with list items and "
+                     "words of 40..330 characters), followed by the standard arguments the flags add (-h, --help, --help-arg <key>, "
+                     "--help-short/-long, --print-hidden/-deprecated, --list-arg-vars/-groups, --verbose-args, --endvalues); program-name file / argument file present, absent, a directory, "
                      "unreadable, HOME unset, with content from valid lines, mutated lines, random bytes incl. NUL, lines of 1000..4000 "
                      "characters, with or without final newline; environment variable absent, empty, valid or hostile; reads chunked "
                      "to 1..64 bytes, short reads, EINTR, EIO at the n-th read, EACCES/ENOENT/EISDIR at the n-th open. Each evaluation "
